@@ -154,14 +154,8 @@ def run(ck):
 
 
 PARTIAL = [
-    "wf_step_partial: every operation except talloc_disable_null_tracking (Op.nullOff) keeps the structural invariant "
-    "and the acyclicity of the holder graph; nullOff is covered by the correspondence run only",
     "unlink_last_releases_partial: the object itself is released and the heap is well formed again; the "
     "characterisation of the whole released/promoted set of descendants is not stated as one theorem",
-    "dtor_exactly_once_partial: at most one accepting destructor call and one release per object, no call after "
-    "acceptance or release (all histories, unconditional), and accepted => released by the same operation "
-    "(accepted_is_released); 'released with a destructor set => it was called' is not proved (the log does not "
-    "record the history of the destructor slot) and is covered by comparing the destructor logs in the tie",
     "the invariant theorems are stated for runs whose ghost flags oof/stuck stay clear (fuel of the model recursion "
     "not exhausted; list_for_each_safe cursor still in the list); adequacy of the fuel and of the loop protocol is "
     "not proved, both flags are printed on every state of every correspondence run and were never set",
